@@ -15,13 +15,13 @@ allvars == <<h, c, size, block, offset, saved, panicked, taint, msg, nextId, sna
 NB == CASE Small = 0 -> {0, 1, 127, 128, 129, 256, 257} [] Small = 1 -> {0, 1, 127, 128, 129, 257} [] Small = 2 -> {1, 128, 129}
 NS == CASE Small = 0 -> {0, 1, 63, 64, 65, 128, 129} [] Small = 1 -> {0, 1, 63, 64, 65, 129} [] Small = 2 -> {1, 64, 65}
 B0 == INSTANCE Blake2Buf_Gen WITH B <- 128, KeyLen <- 0, NSet <- NB, Size <- 32, MaxBytes <- 100000, MaxSize <- 64,
-                                  RangeCheck <- TRUE, CorruptSizes <- {}, CorruptOffsets <- {}
+                                  RangeCheck <- TRUE, CorruptSizes <- {}, CorruptOffsets <- {}, WithMarshal <- TRUE
 B1 == INSTANCE Blake2Buf_Gen WITH B <- 128, KeyLen <- 1, NSet <- NB, Size <- 32, MaxBytes <- 100000, MaxSize <- 64,
-                                  RangeCheck <- TRUE, CorruptSizes <- {}, CorruptOffsets <- {}
+                                  RangeCheck <- TRUE, CorruptSizes <- {}, CorruptOffsets <- {}, WithMarshal <- TRUE
 S0 == INSTANCE Blake2Buf_Gen WITH B <- 64, KeyLen <- 0, NSet <- NS, Size <- 32, MaxBytes <- 100000, MaxSize <- 32,
-                                  RangeCheck <- TRUE, CorruptSizes <- {}, CorruptOffsets <- {}
+                                  RangeCheck <- TRUE, CorruptSizes <- {}, CorruptOffsets <- {}, WithMarshal <- TRUE
 S1 == INSTANCE Blake2Buf_Gen WITH B <- 64, KeyLen <- 1, NSet <- NS, Size <- 32, MaxBytes <- 100000, MaxSize <- 32,
-                                  RangeCheck <- TRUE, CorruptSizes <- {}, CorruptOffsets <- {}
+                                  RangeCheck <- TRUE, CorruptSizes <- {}, CorruptOffsets <- {}, WithMarshal <- TRUE
 
 Init == /\ which \in Which
         /\ CASE which = "b0" -> B0!GInit [] which = "b1" -> B1!GInit [] which = "s0" -> S0!GInit [] which = "s1" -> S1!GInit
